@@ -252,6 +252,26 @@ def r4(db, rep, cache):
                             m = x
                             break
                 if m is None:
+                    # the step may live in a helper that receives the accumulator and the looked-up neighbour state
+                    for x in walk(clo["body"]):
+                        hf = db.hir.get(callee(x) or "") if x.get("k") == "Call" else None
+                        if hf is None:
+                            continue
+                        args = [unq(a) for a in x["args"]]
+                        i_acc = [i for i, a in enumerate(args) if a.get("k") == "Path" and a.get("res", {}).get("local") == acc]
+                        i_nb = [i for i, a in enumerate(args) if a.get("k") == "MethodCall" and a["name"] == "get"]
+                        if len(i_acc) == 1 and len(i_nb) == 1 and len(hf.get("params", [])) == len(args):
+                            nb = hf["params"][i_nb[0]].get("name")
+                            for y in walk(hf["body"]):
+                                if y.get("k") == "Match" and y.get("src") == "Normal":
+                                    sc = unq(y["scrut"])
+                                    if sc.get("k") == "Path" and sc.get("res", {}).get("local") == nb:
+                                        m = y
+                                        acc = hf["params"][i_acc[0]].get("name")
+                                        break
+                        if m is not None:
+                            break
+                if m is None:
                     continue
                 found = True
                 i_none = select_arm(m, ("None",))
